@@ -12,7 +12,7 @@ NAN = '__nan__'          # float('nan') inside a case (cases are stored as stric
 REQUIRED_THEOREMS = ['Usid.C16.reflexive', 'Usid.C16.none_ignored', 'Usid.C16.absent_key_mismatch', 'Usid.C16.sequence_scalar_mismatch',
                      'Usid.C16.scalar_sensitive', 'Usid.C16.length_sensitive', 'Usid.C16.array_sensitive_partial',
                      'Usid.C16.array_sensitive_counterexample']
-RULE = ('[also: entry names with a leading or trailing blank] [also: NaN values, boolean lists, one value against a list of values and back, same-length / truncated / case-changed strings, values handed over as tuples / numpy arrays / numpy scalars, verbose=True, the File object itself] random dictionaries over int / float / bool / str / None / lists of ints, floats or strings, written with '
+RULE = ('[also: whole-number sequences stored as 32-bit arrays and queried as python lists] [also: entry names with a leading or trailing blank] [also: NaN values, boolean lists, one value against a list of values and back, same-length / truncated / case-changed strings, values handed over as tuples / numpy arrays / numpy scalars, verbose=True, the File object itself] random dictionaries over int / float / bool / str / None / lists of ints, floats or strings, written with '
         'write_simple_attrs to a group or a dataset, queried with the same dictionary and with every single-entry '
         'perturbation (value +-1, value x(1 +- tol*{0.1,10}), string change, length +-1, type swap, removal from the '
         'stored object, None); non-trivial = at least one list entry or a perturbation that must flip the answer')
@@ -139,7 +139,7 @@ def generate(seed, tier):
         cases.append({'stored': d, 'queries': [{'kind': k, 'q': q, 'drop': dr, 'key': key} for k, q, dr, key in ps[:8]],
                       'on': rng.choice(['group', 'group', 'dataset', 'file']), 'verbose': rng.random() < 0.2,
                       # containers the values are handed over in: lists / tuples / numpy arrays, python / numpy scalars
-                      'containers': rng.choice(['py', 'py', 'numpy', 'tuple'])})
+                      'containers': rng.choice(['py', 'py', 'numpy', 'tuple', 'mixed'])})
     return cases
 
 
@@ -151,6 +151,8 @@ def _py(v, containers='py'):
         items = [float('nan') if (isinstance(x, str) and x == NAN) else x for x in v]
         if containers == 'numpy' and items:
             return np.array(items)
+        if containers == 'numpy32' and items and all(isinstance(x, int) and not isinstance(x, bool) and abs(x) < 2 ** 31 for x in items):
+            return np.array(items, dtype=np.int32 if min(items) < 0 else np.uint32)
         if containers == 'tuple':
             return tuple(items)
         return items
@@ -192,12 +194,13 @@ def run_impl(inp, work):
                 o = f
             else:
                 o = f.create_dataset(name, data=np.zeros(2)) if inp['on'] == 'dataset' else f.create_group(name)
-            write_simple_attrs(o, _pyd(d, cont))
+            # ('mixed': whole-number sequences are STORED as 32-bit arrays and QUERIED as python lists)
+            write_simple_attrs(o, _pyd(d, 'numpy32' if cont == 'mixed' else cont))
             return o
 
         def cmp(o, q):
             with quiet():
-                return call(check_for_matching_attrs, o, new_parms=_pyd(q, cont), **vkw)
+                return call(check_for_matching_attrs, o, new_parms=_pyd(q, 'py' if cont == 'mixed' else cont), **vkw)
         o = mk('base', inp['stored'])
         before = _dump(o)
         r = cmp(o, inp['stored'])
